@@ -268,6 +268,8 @@ func C10(c *Ctx) {
 	c.R.Rule("C10-R1", "E1+E7", "runtime is fresh per execution; no field/global can hold a runtime", 3)
 	c.R.Rule("C10-R2", "E1", "caller's bindings (any depth) and props map never reachable from values given to the runtime", 1)
 	c.R.Rule("C10-R3", "E1", "Exec writes nothing shared (receiver, parameters, globals)", 5)
+	c.R.Rule("C10-R4", "E5", "a host makes the step properties for each walk", 1)
+	c10HostProps(c)
 	a, exec := c.ecmaAnalysis()
 	if a == nil {
 		return
